@@ -44,7 +44,9 @@ VTensor(e) ==
   ELSE IF ~GenuineImage(e) THEN "GenuineImage" ELSE IF ~NeverShorterThanMic(e) THEN "NeverShorterThanMic"
   ELSE IF ~ExactWithinRange(e) THEN "ExactWithinRange" ELSE IF ~InfiniteBeyondCutoff(e) THEN "InfiniteBeyondCutoff"
   ELSE IF ~NoInfiniteWhenUnbounded(e) THEN "NoInfiniteWhenUnbounded"
-  ELSE IF ~e.same_as_get_distances THEN "GetDistancesIsTheSameTable" ELSE "ok"
+  ELSE IF ~e.same_as_get_distances THEN "GetDistancesIsTheSameTable"
+  \* history: the tables handed out by this call are still what they were after a later call on another input of the same size
+  ELSE IF ~e.untouched_by_later_call THEN "EarlierResultUntouchedByLaterCall" ELSE "ok"
 
 \* ---------------------------------------------------------------- C16: extended system
 ImgPos(e, im) == VAdd(e.pos[im.idx], Comb(im.fac, e.cell))
